@@ -47,7 +47,7 @@ def gen(rng, i):
 
 
 def run(ctx):
-    return busprop.run(ctx, gen, 'C05.cfg', 72, 1600, RULE)
+    return busprop.run(ctx, gen, 'C15.cfg', 72, 1600, RULE)
 
 
 def replay(ctx, path):
